@@ -19,6 +19,16 @@ LEVEL = "exploration"
 SHAPES = [0.01, 0.02, 0.05, 0.1, 0.2, 0.5, 1.0, 2.0, 5.0, 10.0, 20.0, 50.0, 100.0]
 PINVS = [None, 0.01, 0.1, 0.5, 0.9, 0.99, 0.9995, 1.0 - 1e-6, 1.0 - 1e-9]  # [0,1): sweep towards 1
 MUS = [None, 0.5, 3.0]
+# thorough tier: finer lattice (eighth-decade shapes, more invariant proportions and rate multipliers)
+SHAPES_T = sorted(set(SHAPES + [round(10 ** (e / 8), 6) for e in range(-16, 17)]))
+PINVS_T = PINVS + [0.001, 0.25, 0.75, 0.999, 1.0 - 1e-4, 1.0 - 1e-8]
+MUS_T = MUS + [1e-3, 100.0]
+
+
+def lattice(tier):
+    if tier == "thorough":
+        return SHAPES_T, PINVS_T, list(range(1, 25)) + [32], MUS_T
+    return SHAPES, PINVS, [1, 2, 3, 4, 5, 8, 16], MUS
 
 
 def P(id_, v):
@@ -208,13 +218,13 @@ def check_batched(rows, which):
 
 
 def cases(tier):
-    Ks = list(range(1, 17)) if tier == "thorough" else [1, 2, 3, 4, 5, 8, 16]
+    shapes, pinvs, Ks, mus = lattice(tier)
     out = []
-    for shape, pinv, K, mu in itertools.product(SHAPES, PINVS, Ks, MUS):
+    for shape, pinv, K, mu in itertools.product(shapes, pinvs, Ks, mus):
         out.append({"kind": "weibull", "shape": shape, "pinv": pinv, "K": K, "mu": mu})
-    for pinv, mu in itertools.product(PINVS[1:], MUS):
+    for pinv, mu in itertools.product(pinvs[1:], mus):
         out.append({"kind": "invariant", "pinv": pinv, "mu": mu})
-    for mu in MUS:
+    for mu in mus:
         out.append({"kind": "constant", "mu": mu})
     return out
 
@@ -235,6 +245,7 @@ def _work(chunk):
 
 def run(run):
     cs = cases(run.tier)
+    SHAPES = lattice(run.tier)[0]
     items = [("single", c) for c in cs]
     # histories: on a sub-lattice (every discrete configuration, 3 shapes)
     hist = [c for c in cs if c["kind"] != "weibull" or
@@ -293,7 +304,8 @@ def run(run):
     cov = {
         "evaluations": evals,
         "distinct_nontrivial": len(distinct),
-        "rule": "full lattice shape(13) x p_inv(6) x K x mu(3), both read orders; every subset of "
+        "rule": "full lattice shape(%d) x p_inv(%d) x K(%d) x mu(%d), both read orders;" % tuple(
+            len(x) for x in lattice(run.tier)) + " every subset of "
                 "parameters batched with 3 different rows; every update history of depth<=2 x read "
                 "orders on a sub-lattice; non-trivial = more than one category",
         "samples": [cs[0], cs[len(cs) // 3], cs[-5], {"batched_rows_example": items[-1][1]}],
